@@ -212,3 +212,36 @@ theorem d_bigsum (n : ℕ) (F : ℕ → ℝ → ℝ) (F' : ℕ → ℝ) (x : ℝ
     (h : ∀ i ∈ Finset.range n, HasDerivAt (F i) (F' i) x) :
     HasDerivAt (fun y => ∑ i ∈ Finset.range n, F i y) (∑ i ∈ Finset.range n, F' i) x :=
   HasDerivAt.fun_sum h
+
+/-! ### sign-preserving roots are multiplicative for arguments of any sign -/
+theorem sroot_nonneg_eq (x : ℝ) (n : ℕ) (h : 0 ≤ x) : sroot x n = x ^ ((1:ℝ)/n) := by unfold sroot; simp [h]
+theorem sroot_neg_eq (x : ℝ) (n : ℕ) (h : x < 0) : sroot x n = -((-x) ^ ((1:ℝ)/n)) := by
+  unfold sroot; simp [not_le.mpr h]
+
+/-- sign-preserving roots are multiplicative for arguments of any sign (used for odd n) -/
+theorem ax_root_mul_any (a b : ℝ) (n : ℕ) (ha : a ≠ 0) (hb : b ≠ 0) :
+    sroot (a * b) n = sroot a n * sroot b n := by
+  rcases lt_or_gt_of_ne ha with ha' | ha' <;> rcases lt_or_gt_of_ne hb with hb' | hb'
+  · have hab : 0 ≤ a * b := le_of_lt (mul_pos_of_neg_of_neg ha' hb')
+    rw [sroot_nonneg_eq _ _ hab, sroot_neg_eq _ _ ha', sroot_neg_eq _ _ hb']
+    have : a * b = (-a) * (-b) := by ring
+    rw [this, Real.mul_rpow (by linarith) (by linarith)]; ring
+  · have hab : a * b < 0 := mul_neg_of_neg_of_pos ha' hb'
+    rw [sroot_neg_eq _ _ hab, sroot_neg_eq _ _ ha', sroot_nonneg_eq _ _ (le_of_lt hb')]
+    have : -(a * b) = (-a) * b := by ring
+    rw [this, Real.mul_rpow (by linarith) (by linarith)]; ring
+  · have hab : a * b < 0 := mul_neg_of_pos_of_neg ha' hb'
+    rw [sroot_neg_eq _ _ hab, sroot_nonneg_eq _ _ (le_of_lt ha'), sroot_neg_eq _ _ hb']
+    have : -(a * b) = a * (-b) := by ring
+    rw [this, Real.mul_rpow (by linarith) (by linarith)]; ring
+  · have hab : 0 ≤ a * b := le_of_lt (mul_pos ha' hb')
+    rw [sroot_nonneg_eq _ _ hab, sroot_nonneg_eq _ _ (le_of_lt ha'), sroot_nonneg_eq _ _ (le_of_lt hb')]
+    rw [Real.mul_rpow (le_of_lt ha') (le_of_lt hb')]
+
+/-- adequacy of the dV row of an n-ary product: sum_i (prod_{j != i} V_j) * dV_i -/
+theorem d_bigprod (n : ℕ) (F : ℕ → ℝ → ℝ) (F' : ℕ → ℝ) (x : ℝ)
+    (h : ∀ i ∈ Finset.range n, HasDerivAt (F i) (F' i) x) :
+    HasDerivAt (fun y => ∏ i ∈ Finset.range n, F i y)
+      (∑ i ∈ Finset.range n, (∏ j ∈ (Finset.range n).erase i, F j x) * F' i) x := by
+  have := HasDerivAt.fun_finsetProd (u := Finset.range n) (f := F) (f' := F') (x := x) h
+  simpa [smul_eq_mul] using this
